@@ -39,6 +39,11 @@ type verifUpstream struct {
 	urls     []string
 	keys     []string
 	pending  []int // statuses of the response being decoded (engine-side json model)
+	bodies   [][]byte
+	// during, if set, runs while a request is in flight (after the upstream has read its body);
+	// alwaysOK names API keys whose requests are always answered 200 with all events accepted
+	during   func(call int, key string)
+	alwaysOK string
 }
 
 var verifUp *verifUpstream
@@ -55,9 +60,21 @@ func (u *verifUpstream) roundTrip(req *http.Request) (*http.Response, error) {
 	u.sizes = append(u.sizes, len(body))
 	u.urls = append(u.urls, req.URL.String())
 	u.keys = append(u.keys, req.Header.Get("X-Honeycomb-Team"))
+	u.bodies = append(u.bodies, body)
+	if u.during != nil {
+		u.during(i, req.Header.Get("X-Honeycomb-Team"))
+	}
 	// the upstream's behaviour for this attempt is chosen when the attempt happens
-	a := verifAttempt{kind: zz.Choose("attempt", 6)}
-	if a.kind == 0 {
+	a := verifAttempt{}
+	ok := u.alwaysOK != "" && req.Header.Get("X-Honeycomb-Team") == u.alwaysOK
+	if !ok {
+		a.kind = zz.Choose("attempt", 6)
+	}
+	if ok {
+		for j := 0; j < int(n); j++ {
+			a.statuses = append(a.statuses, 202)
+		}
+	} else if a.kind == 0 {
 		k := int(n)
 		if zz.NondetBool("tooFewResponses") {
 			k--
@@ -264,4 +281,77 @@ func Harness_C26_C19_destinations() {
 		}
 	}
 	zz.Assert(zz.And(seen[0] == 1, seen[1] == 1), "every enqueued event is in exactly one batch")
+}
+
+// C26 (a retried request carries the same events): batch A (1-2 events) is sent with every upstream
+// behaviour per attempt; while one of A's requests is in flight (the upstream has read the body and
+// not yet answered) or before A starts, another batch B (1-2 events, other key, other sizes) is sent
+// through the same transmission and delivered. sync.Pool is modelled as reusing what was returned
+// to it (zz.PoolReuse), so a buffer handed back too early is handed to B. Every request of A
+// announces A's events and a retry carries byte for byte what the first attempt carried; B's
+// request announces B's events; every event gets exactly one outcome.
+func Harness_C26_retry_body() {
+	zz.MustCover("(*github.com/honeycombio/refinery/transmit.DirectTransmission).sendBatch")
+	zz.PoolReuse()
+	zz.Bound("events_per_batch", 2)
+	zz.Bound("concurrent_batches", 2)
+	clk := &verifSleepClock{now: time.Unix(1700000000, 0)}
+	met := &verifUpDown{name: "q"}
+	d := &DirectTransmission{Config: &config.MockConfig{}, Logger: &logger.NullLogger{}, Metrics: met, Clock: clk, maxBatchSize: 100,
+		eventBatches: map[transmitKey]*eventBatch{}, httpClient: &http.Client{Transport: verifTransport{}}, userAgent: "verif"}
+	d.metricKeys.updownQueuedItems = "q"
+	mk := func(n int, key string, rate uint, sz int) []*types.Event {
+		var evs []*types.Event
+		for i := 0; i < n; i++ {
+			ev := &types.Event{APIHost: "https://api.honeycomb.io", APIKey: key, Dataset: "ds", SampleRate: rate, Timestamp: time.Unix(1700000000+int64(rate), 0)}
+			if zz.InEngine() {
+				ev.Data.MetaSpanCount = int64(sz)
+			} else {
+				ev.Data = types.NewPayload(&config.MockConfig{}, map[string]any{"blob": strings.Repeat(key[3:], sz-16)})
+			}
+			evs = append(evs, ev)
+			met.Up("q")
+		}
+		return evs
+	}
+	nA := 1 + zz.Choose("eventsA", 2)
+	nB := 1 + zz.Choose("eventsB", 2)
+	a := mk(nA, "keyA", 1, 100)
+	b := mk(nB, "keyB", 7, 300)
+	when := zz.Choose("otherBatchRuns", 3) // 0: before A; 1, 2: while A's first / second request is in flight
+	verifUp = &verifUpstream{alwaysOK: "keyB"}
+	callsOfA, ranB := 0, false
+	verifUp.during = func(call int, key string) {
+		if key != "keyA" {
+			return
+		}
+		callsOfA++
+		if callsOfA == when && !ranB {
+			ranB = true
+			d.sendBatch(b)
+		}
+	}
+	if when == 0 {
+		ranB = true
+		d.sendBatch(b)
+	}
+	d.sendBatch(a)
+	if !ranB { // A needed no second attempt: B goes afterwards
+		d.sendBatch(b)
+	}
+
+	zz.Assert(met.down == nA+nB, "every event of both batches gets exactly one outcome")
+	var firstA []byte
+	for i := range verifUp.bodies {
+		if verifUp.keys[i] == "keyA" {
+			zz.Assert(verifUp.counts[i] == nA, "a request of batch A announces A's events (also on the retry)")
+			if firstA == nil {
+				firstA = verifUp.bodies[i]
+			} else {
+				zz.Assert(string(verifUp.bodies[i]) == string(firstA), "a retried request carries the same bytes as the first attempt")
+			}
+		} else {
+			zz.Assert(verifUp.keys[i] == "keyB" && verifUp.counts[i] == nB, "the other batch's request announces its own events")
+		}
+	}
 }
